@@ -1991,6 +1991,73 @@ def translate_marker(src_dir: str) -> str:
         METHODS, CFG_ATTRS, STATE_ATTRS, ORACLES, CFG_TYPE, LOCAL_ELT, EXTRA_PARAMS, MONAD, EXPR_HOOKS, STMT_SKIP, RECEIVERS, STMT_HOOKS = saved
     return ''.join(out)
 
+# ---- LaserPath.add_path (C10): the single store point - what is checked, on which values, and what is stored
+_AP_GEN = ("Assign(targets=[Tuple(elts=[Name(id='x'), Name(id='y'), Name(id='z'), Name(id='f'), Name(id='s')])], value=GeneratorExp(elt=Call(func=Attribute("
+           "value=Call(func=Attribute(value=Name(id='np'), attr='asarray'), args=[Name(id='a')], keywords=[]), attr='astype'), args=[Attribute(value=Name(id='np'), "
+           "attr='float32')], keywords=[]), generators=[comprehension(target=Name(id='a'), iter=Tuple(elts=[Name(id='x'), Name(id='y'), Name(id='z'), Name(id='f'), "
+           "Name(id='s')]), ifs=[], is_async=0)]))")
+
+
+def _h_ap(tr, e, env):
+    d = dump(e)
+    if isinstance(e, ast.Call) and _np_is(e.func, 'np', 'all') and len(e.args) == 1 and not e.keywords:
+        a = e.args[0]
+        if isinstance(a, ast.Call) and _np_is(a.func, 'np', 'isfinite') and len(a.args) == 1 and not a.keywords and isinstance(a.args[0], ast.Name):
+            return [], f'(nd_all fin {cname(a.args[0].id)})'
+        if (isinstance(a, ast.Compare) and len(a.ops) == 1 and isinstance(a.ops[0], ast.Gt) and isinstance(a.left, ast.Name)
+                and isinstance(a.comparators[0], ast.Constant) and a.comparators[0].value == 0 and a.comparators[0].value is not False):
+            return [], f'(nd_all pos {cname(a.left.id)})'
+        raise Unsupported(f'np.all of another test: {d[:160]}')
+    if isinstance(e, ast.Call) and _np_is(e.func, 'np', 'append') and len(e.args) == 2 and not e.keywords:
+        e1, t1 = tr.E(e.args[0], env)
+        e2, t2 = tr.E(e.args[1], env)
+        return e1 + e2, f'(nd_append {t1} {t2})'
+    if (isinstance(e, ast.Call) and isinstance(e.func, ast.Attribute) and e.func.attr == 'astype' and len(e.args) == 1 and not e.keywords
+            and _np_is(e.args[0], 'np', 'float32')):
+        eff, t = tr.E(e.func.value, env)
+        return eff, f'(nd_map cast {t})'
+    if isinstance(e, ast.Call) and isinstance(e.func, ast.Attribute) and isinstance(e.func.value, ast.Name) and e.func.value.id == 'np':
+        raise Unsupported(f'numpy call outside the subset: {d[:160]}')
+    return None
+
+
+def _s_ap(tr, s, rest, env, tail):
+    if dump(s) == _AP_GEN:
+        body = tr.T(rest, env, tail)
+        for n in reversed(['x', 'y', 'z', 'f', 's']):
+            body = f'let {cname(n)} := (nd_map cast {cname(n)}) in {body}'
+        return body
+    if isinstance(s, ast.Assign) and isinstance(s.value, ast.GeneratorExp):
+        raise Unsupported('generator expression assigned')
+    return None
+
+
+_AP_HEADER = """Section Src.
+Context {cell : Type} (cast : cell -> cell) (fin : cell -> bool) (pos : cell -> bool).
+Notation MA := (@M (ap_st cell)).
+
+"""
+
+
+def translate_add_path(src_dir: str) -> str:
+    global METHODS, CFG_ATTRS, STATE_ATTRS, ORACLES, CFG_TYPE, LOCAL_ELT, EXTRA_PARAMS, MONAD, EXPR_HOOKS, STMT_SKIP, RECEIVERS, STMT_HOOKS
+    saved = (METHODS, CFG_ATTRS, STATE_ATTRS, ORACLES, CFG_TYPE, LOCAL_ELT, EXTRA_PARAMS, MONAD, EXPR_HOOKS, STMT_SKIP, RECEIVERS, STMT_HOOKS)
+    out = [PURE_PREAMBLE % ('laserpath.py', '', 'NpState'), _AP_HEADER]
+    try:
+        lp = ast.parse(pathlib.Path(src_dir, 'laserpath.py').read_text())
+        cls = [n for n in lp.body if isinstance(n, ast.ClassDef) and n.name == 'LaserPath']
+        if len(cls) != 1:
+            raise Unsupported('class LaserPath not found')
+        METHODS = {'add_path': ('method', [(n, 'nd cell') for n in ('x', 'y', 'z', 'f', 's')], 'unit')}
+        CFG_ATTRS, ORACLES = set(), {}
+        STATE_ATTRS = {'_x': 'ap__x', '_y': 'ap__y', '_z': 'ap__z', '_f': 'ap__f', '_s': 'ap__s'}
+        CFG_TYPE, LOCAL_ELT, EXTRA_PARAMS, MONAD = 'unit', {}, '', 'MA'
+        EXPR_HOOKS, STMT_SKIP, RECEIVERS, STMT_HOOKS = [_h_ap], [], {'self'}, [_s_ap]
+        out.append(Tr(cls[0]).method('add_path') + '\nEnd Src.\n')
+    finally:
+        METHODS, CFG_ATTRS, STATE_ATTRS, ORACLES, CFG_TYPE, LOCAL_ELT, EXTRA_PARAMS, MONAD, EXPR_HOOKS, STMT_SKIP, RECEIVERS, STMT_HOOKS = saved
+    return ''.join(out)
+
 
 def main(argv):
     """py2coq.py <dir of femto sources> <output dir> <group>...   groups: pgm (PgmSrc.v), SrcLp.v, SrcNw.v, SrcTc.v, SrcTr.v"""
@@ -2010,6 +2077,8 @@ def main(argv):
                 name, text = g, translate_views(str(src_dir))
             elif g == 'SrcMk.v':
                 name, text = g, translate_marker(str(src_dir))
+            elif g == 'SrcAp.v':
+                name, text = g, translate_add_path(str(src_dir))
             elif g == 'SrcSs.v':
                 name, text = g, translate_sheet(str(src_dir))
             elif g == 'SrcTn.v':
